@@ -313,6 +313,57 @@ def rule_KN(run: Run) -> RuleResult:
                 res.add(f"{q}:raise KeyNotFoundError names key and source", ok, m.relpath, r.lineno, ast.unparse(r)[:100], nec)
     if n < 4:
         raise AnalysisError(f"only {n} KeyNotFoundError raise sites found")
+    # every raise of an EvaluationError subclass hands a node where the constructor expects the source / an
+    # evaluatable, and text where it expects the message (swapped arguments put the message into `.source`)
+    from .interp import annotation_kind, exc_is_subclass
+    n_sites = 0
+    for m, cls, fn, q in iter_functions(repo):
+        if m.name.startswith("labrea.mypy"):
+            continue
+        pann = {a.arg: a.annotation for a in fn.args.posonlyargs + fn.args.args + fn.args.kwonlyargs if a.annotation is not None}
+        if cls is not None and not hasattr(cls, "mro"):
+            cls = repo.classes.get(f"{m.name}.{cls.name}")
+
+        def kind_of(e: ast.expr) -> str:
+            if isinstance(e, (ast.JoinedStr,)) or (isinstance(e, ast.Constant) and isinstance(e.value, str)):
+                return "text"
+            if isinstance(e, ast.Call) and astu.short_name(e) in ("str", "repr", "format", "join"):
+                return "text"
+            if isinstance(e, ast.Name) and e.id in ("self", "cls") and cls is not None and cls.is_subclass_of("Evaluatable"):
+                return "node"
+            if isinstance(e, ast.Name) and e.id in pann:
+                return "node" if annotation_kind(repo, m, pann[e.id]) == "node" else ("text" if ast.unparse(pann[e.id]) == "str" else "?")
+            if isinstance(e, ast.Attribute) and isinstance(e.value, ast.Name) and e.value.id == "self" and cls is not None:
+                for kc in cls.mro():
+                    if e.attr in kc.annotations:
+                        return "node" if annotation_kind(repo, kc.module, kc.annotations[e.attr]) == "node" else "?"
+            if isinstance(e, ast.Attribute) and e.attr in ("evaluatable", "validatable", "cacheable", "explainable"):
+                return "node"
+            return "?"
+
+        for r in astu.walk_no_nested(fn):
+            if not (isinstance(r, ast.Raise) and isinstance(r.exc, ast.Call) and isinstance(r.exc.func, (ast.Name, ast.Attribute))):
+                continue
+            ec = repo.resolve_class(m, r.exc.func)
+            if ec is None or not (ec.name == "EvaluationError" or ec.is_subclass_of("EvaluationError")):
+                continue
+            init_r = ec.find_method("__init__")
+            if init_r is None:
+                continue
+            iparams = init_r[1].args.posonlyargs + init_r[1].args.args
+            iparams = iparams[1:]
+            bad = []
+            for a_, p_ in zip(r.exc.args, iparams):
+                if isinstance(a_, ast.Starred) or p_.annotation is None:
+                    continue
+                want = "node" if annotation_kind(repo, init_r[0].module, p_.annotation) == "node" else ("text" if ast.unparse(p_.annotation) == "str" else "?")
+                got = kind_of(a_)
+                if want != "?" and got != "?" and want != got:
+                    bad.append(f"parameter {p_.arg} ({ast.unparse(p_.annotation)}) receives {ast.unparse(a_)[:40]}")
+            n_sites += 1
+            res.add(f"{q}:raise {ec.name} arguments match the constructor (source is a node, message is text)", not bad, m.relpath, r.lineno,
+                    "; ".join(bad) or ast.unparse(r.exc)[:80], nec)
+    res.count("evaluation_error_raise_sites", n_sites)
     return res
 
 
